@@ -342,6 +342,49 @@ def harnesses():
         return bool(errs), e % 8 == 0
 
     out.append(("array-element-bytes", array_elem))
+
+    # ---- element type of an array field: its width must satisfy the type's own requirements ----
+    def array_elem_req(c, ir, holder):
+        st = find_type(ir, "St")
+        f = find_field(st, "arr")
+        e = z3.Int("element_bits")
+        f.type.array_type.base_type.size_in_bits = sym_const_expr(e)
+        holder["describe"] = lambda m: {"element_bits": m.eval(e, model_completion=True).as_long()}
+        errs = []
+        # the traversal of check_constraints calls the function once per Type node, with the enclosing field
+        constraints._check_type_requirements_for_field(f.type, st, f, ir, "base.emb", errs)
+        constraints._check_type_requirements_for_field(f.type.array_type.base_type, st, f, ir, "base.emb", errs)
+        return bool(errs), z3.And(e >= 1, e <= 64)
+
+    out.append(("array-element-width", array_elem_req))
+
+    # ---- inner array dimensions must be compile-time constants (any constant expression) ----
+    def inner_dim(shape):
+        def fn(c, ir, holder):
+            a, b = z3.Int("dim_a"), z3.Int("dim_b")
+            holder["describe"] = lambda m: {"shape": shape, "dim_a": m.eval(a, model_completion=True).as_long(),
+                                            "dim_b": m.eval(b, model_completion=True).as_long()}
+            if shape == "literal":
+                ec = sym_const_expr(a)
+            elif shape == "sum":
+                ec = ir_data.Expression(function=ir_data.Function(function=ir_data.FunctionMapping.ADDITION,
+                                                                  args=[sym_const_expr(a), sym_const_expr(b)]),
+                                        type=ir_data.ExpressionType(integer=ir_data.IntegerType()))
+            elif shape == "field":
+                ec = ir_data.Expression(field_reference=ir_data.FieldReference(path=[ir_data.Reference(
+                    canonical_name=ir_data.CanonicalName(module_file="base.emb", object_path=["St", "u"]))]),
+                    type=ir_data.ExpressionType(integer=ir_data.IntegerType(modulus="1", modular_value="0", minimum_value="0", maximum_value="255")))
+            if shape == "automatic":
+                at = ir_data.ArrayType(base_type=ir_data.Type(), automatic=ir_data.Empty())
+            else:
+                at = ir_data.ArrayType(base_type=ir_data.Type(), element_count=ec)
+            errs = []
+            constraints._check_that_inner_array_dimensions_are_constant(at, "base.emb", errs)
+            return bool(errs), z3.BoolVal(shape in ("literal", "sum"))
+        return fn
+
+    for shape in ("literal", "sum", "field", "automatic"):
+        out.append(("inner-dimension:" + shape, inner_dim(shape)))
     return out
 
 
@@ -445,7 +488,7 @@ def main(tier):
             else:
                 rep.harness_error("candidate did not reproduce: %r (%s)" % (cand, observed))
     # vacuity: both decisions reachable for every rule with two outcomes
-    both = [n for n in names if not n.startswith("phys-dynamic") and not (res["witness"].get(n + ":accepted") and res["witness"].get(n + ":rejected"))]
+    both = [n for n in names if not n.startswith(("phys-dynamic", "inner-dimension")) and not (res["witness"].get(n + ":accepted") and res["witness"].get(n + ":rejected"))]
     if both:
         rep.harness_error("harnesses that did not reach both decisions: %s" % both)
     rep.sample({"harness": "phys:UInt", "symbolic": "size (unbounded integer)", "oracle": "accepted iff 1 <= size <= 64"})
